@@ -683,6 +683,17 @@ func reifyDoArray(
 	val value,
 	arr []value,
 ) (reflect.Value, Error) {
+	if len(arr) == 1 && arr[0] == val {
+		// a primitive taken as a list of one entry. For an element type that
+		// is a list again it is taken as a list of one once more, and so on:
+		// for a recursive type (type L []L) without end.
+		opts.opts.listWraps++
+		defer func() { opts.opts.listWraps-- }()
+		if opts.opts.listWraps > 32 {
+			return reflect.Value{}, raiseToTypeNotSupported(opts.opts, val, to.Type())
+		}
+	}
+
 	aLen := len(arr)
 	tLen := to.Len()
 	for idx := 0; idx < tLen; idx++ {
